@@ -4,6 +4,7 @@ import (
 	"bytes"
 	"fmt"
 	"math/rand"
+	"reflect"
 	"strings"
 
 	"github.com/reusee/sb"
@@ -197,9 +198,41 @@ func famPipeline(dir string, seed int64, tier string) {
 	rep.Rule = "programs: every composition of length <= 2 of the 16 stage kinds (272, spread over the inputs) and random compositions of length 1..24, all random choices (nodes to substitute, which of three targets to keep) fixed in the program; inputs: value streams that are stable under schema-less decoding (marshalled from `any`-decoded generated values); non-trivial = program length >= 1 and input >= 2 tokens"
 	w := newCaseWriter(dir, "pipeline", "Corr_pipeline", "pipe_case", "check_pipe", 60, rep)
 	r := newRand(seed, "pipeline")
+	// pointer types to registered types, registered themselves: marshalling emits DIRECTLY NESTED type names
+	// (TypeName "*main.RegInt", TypeName "main.RegInt", Int32), stable under schema-less decoding
+	pRegInt := reflect.PtrTo(reflect.TypeOf(RegInt(0)))
+	ppRegPoint := reflect.PtrTo(reflect.PtrTo(reflect.TypeOf(RegPoint{})))
+	registerExtra(pRegInt, reflect.PtrTo(reflect.TypeOf(RegPoint{})), ppRegPoint)
 	reg := coqRegistry()
 	// inputs
 	var inputs [][]sb.Token
+	ri1, ri2 := RegInt(7), RegInt(-1)
+	rp := &RegPoint{X: 3, Y: 4}
+	directed := []any{
+		[]any{&ri1, 5, &ri2},
+		[]any{2, &ri1},
+		map[string]any{"a": &ri1, "b": []any{&rp, "s"}},
+		&ri2,
+		[]any{[]any{&rp}, &ri1, &ri1},
+		func() (any, any, int) { return &ri1, &rp, 1 },
+	}
+	for _, v := range directed {
+		ts, err := marshalTokens(v, nil)
+		if err != nil {
+			continue
+		}
+		var x any
+		if e := guard(func() error { return copyBudget(tokensFrom(ts), sb.Unmarshal(&x)) }); e != nil {
+			rep.count("directed-input-not-decodable")
+			continue
+		}
+		if ts2, e2 := marshalTokens(x, nil); e2 != nil || !tokensExactEq(ts, ts2) {
+			rep.count("directed-input-not-stable")
+			continue
+		}
+		rep.count("directed-input")
+		inputs = append(inputs, ts)
+	}
 	for len(inputs) < 40 {
 		t := randType(r, 1+r.Intn(3))
 		v := randGoValue(r, t, 3)
